@@ -145,7 +145,7 @@ func init() {
 		},
 		NotDecided: []string{
 			"the io.Reader / io.ReadSeeker / io.ReaderAt back ends against the behavioural contract of IBinaryReader.Bytes (their memory safety is proved; their functional clauses are assumed relative to io contracts)",
-			"WriteUint16/32/64 and WriteInt16/32/64 byte layout (delegated to encoding/binary's AppendByteOrder, an external interface); the 8- and 24-bit writers (signed and unsigned) and all readers, including two's-complement sign extension of ReadInt8/16/24/32, are proved; ReadInt64/ReadUint64 values are not specified",
+			"WriteUint16/32/64 and WriteInt16/32/64 byte layout (delegated to encoding/binary's AppendByteOrder, an external interface); the 8- and 24-bit writers (signed and unsigned) and all readers, including two's-complement sign extension of ReadInt8/16/24/32/64, are proved",
 			"the operating system (os.File, syscall.Mmap) and the file/mmap constructors",
 		},
 		Technique: "deductive verification: behavioural interface contract for IBinaryReader.Bytes over a ghost content view (proved for the memory and mmap back ends), io.Seeker semantics of Seek, position bookkeeping and sticky first error, fixed-width decoding == sum of content bytes, bit-exact BitmapReader/BitmapWriter contracts; VCs discharged by z3/cvc5",
@@ -193,7 +193,7 @@ func init() {
 			"identifier tokens: Unicode ID_Start/ID_Continue classes and \\u escapes (only memory safety and progress are proved for consumeIdentifierToken)",
 			"numeric literals: proved are the extents of hexadecimal, binary, octal and decimal literals including numeric separators (a '_' only between digits of the radix), the BigInt suffix and the exponent; not decided: the legacy-octal and 'identifier directly after a number' error paths, and IntegerToken literals that start with 0",
 			"template nesting via level/templateLevels (which '}' resumes a template); for string and template tokens the extent is proved (first unescaped delimiter / '${' / raw line break, with line continuations) but not the validity of the escape sequences inside",
-			"RegExp(): character-class and escape tracking of consumeRegExpToken (memory safety and progress only)",
+			"RegExp(): proved is that the literal ends at the first '/' that is neither escaped nor inside a character class and that RegExp() rewinds over exactly '/' or '/='; the flags and the well-formedness of the pattern are not decided",
 			"the converse direction for keywords (an identifier whose text is a keyword spelling never gets IdentifierToken) follows from the exact Keywords table used in the encoding but is not stated as a clause",
 			"completeness: that every token sequence of the grammar is returned as exactly those tokens (an induction over token sequences); proved instead are the per-token clauses: canonical spelling of every operator, punctuator, reserved word and contextual keyword token, longest-match before '=', the '?.' digit look-ahead rule, CommentLineTerminatorToken iff the comment contains a line terminator",
 		},
